@@ -173,6 +173,38 @@ def gen_single(rng, fn, force_empty=False, k=0):
             seed = enc_arr(B.rand_values(rng, np.shape(Lv), 0.3, 1.5)) if np.size(Lv) else None
             b.prog.append({"k": "backward", "tgt": out, "seed": seed})
             return {"kind": "op", "fn": fn, "prog": b.prog, "L": out, "dtype": dtype, "cseed": rng.randrange(1 << 30)}
+        if fn == "power" and k % 6 == 4:
+            # the operator's scalar fast paths (x ** 1, x ** 2 run Positive / Square): every CARRIER of the exponent - Python number, NumPy
+            # scalar, 0-d array, 0-d constant tensor, 0-d TRAINABLE tensor (which must get its gradient: never a fast path) - at the values the
+            # fast paths test for and next to them, through every spelling
+            base_st = next(st for st in b.prog if st["k"] == "leaf")
+            for st in b.prog[1:]:
+                if st["k"] == "leaf":
+                    b.it.env.pop(st["out"], None)
+            b.prog[:] = [base_st]
+            b.meta = {base_st["out"]: b.meta[base_st["out"]]}
+            fixed = [("tvar", 1, "op"), ("tvar", 2, "op"), ("tconst", 2, "op"), ("py", 1, "op"), ("py", 2, "op"), ("npscalar", 2, "op"), ("arr0", 1, "op"),
+                     ("tvar", 2, "mg"), ("tvar", 1, "np"), ("tconst", 1, "op"), ("arr0", 2, "op"), ("npscalar", 1, "op")]
+            if k // 6 < len(fixed):
+                carrier, val, sp_ = fixed[k // 6]      # the first dozen combinations are always present, the rest are drawn
+            else:
+                carrier, val, sp_ = rng.choice(["py", "npscalar", "arr0", "tconst", "tvar", "tvar"]), rng.choice([1, 2, 1, 2, 3, 0.5]), rng.choice(["op", "op", "mg", "np"])
+            if carrier == "py":
+                ex = val if rng.random() < 0.5 else float(val)
+            elif carrier == "npscalar":
+                ex = ["s", rng.choice(["float64", "float32"]) if val == 0.5 else rng.choice(["int64", "float64", "float32"]), val]
+            elif carrier == "arr0":
+                ex = enc_arr(np.array(val, dtype=rng.choice(["float64", "float32"])))
+            else:
+                n = b.leaf((), values=np.array(float(val)), constant=True if carrier == "tconst" else None)
+                ex = B.R(n)
+            out = b.call("power", [B.R(base_st["out"]), ex], sp=sp_)
+            if out is None:
+                continue
+            Lv = b.val(out)
+            seed = enc_arr(B.rand_values(rng, np.shape(Lv), 0.3, 1.5)) if np.size(Lv) else None
+            b.prog.append({"k": "backward", "tgt": out, "seed": seed})
+            return {"kind": "op", "fn": fn, "prog": b.prog, "L": out, "dtype": dtype, "cseed": rng.randrange(1 << 30)}
         if fn in ZERO_FNS and k % 3 == 1:
             # exact zeros among the factors (0, 1 or several per lane): the product is a polynomial, differentiable there, and the
             # backward pass has dedicated branches for it; signs mixed as well
